@@ -152,6 +152,9 @@ example :
       [(1, [[[([1], 10)]], [[([2], 11)]]]), (2, [[[([5], 20), ([6], 21)]]]), (3, [[[([9], 30)]]])] =
       [(1, [[([1], 10), ([2], 11)]]), (2, [[([5], 20), ([6], 21)]]), (3, [[([9], 30)]])] := by decide
 
+/-- non-vacuity of the sort hypothesis: the identity (any permutation) keeps the elements -/
+example : ∀ (l : List Trie) (t : Trie), t ∈ (id : List Trie → List Trie) l ↔ t ∈ l := fun _ _ => Iff.rfl
+
 namespace Neg
 
 /-- key 2: one full block (block size 2), key 3: one small trie -/
